@@ -11,6 +11,8 @@
 //   spaces <threads> <per> <list 0|1>                        concurrent StateSpace creation / destruction (+ StateSpace::List)
 //   solutions <adders> <readers> <per>                       addSolutionPath / getSolutions on one ProblemDefinition
 //   logging <threads> <per>                                  OMPL_INFORM + handler / level changes
+//   goallazy <readers> <samples> <seed>                      GoalLazySamples: sampling thread + readers of every entry point + addState
+//                                                            from the new-state callback; stop / restart / destruction while sampling
 //   logpark <rounds>                                         directed: a handler that parks inside log() while a second thread
 //                                                            logs / replaces the handler (overlap, stale handler, order, counts)
 //   solmix <adders> <readers> <clearers> <per> <seed>        add / getSolutions / clearSolutionPaths mixed; real-time-order oracle
@@ -36,6 +38,7 @@
 #include "common/planning.h"
 #include <ompl/base/DiscreteMotionValidator.h>
 #include <ompl/base/MotionValidator.h>
+#include <ompl/base/goals/GoalLazySamples.h>
 #include <ompl/datastructures/NearestNeighborsGNAT.h>
 #include <ompl/util/RandomNumbers.h>
 #include <ompl/util/Console.h>
@@ -1399,6 +1402,176 @@ namespace
                " phantom=" + std::to_string(seenBefore.load()) + " sticky=" + std::to_string(sticky);
     }
 
+    // ---------------------------------------------------------------- GoalLazySamples ("remains thread safe")
+    // goallazy <readers> <samples> <seed>: a sampling thread fills the goal while <readers> threads use every const/locked
+    // entry point; the new-state callback adds extra states through addState(); stopSampling / startSampling / destruction
+    // while sampling from the main thread.  Everything the oracle compares is determined by the sampler's sequence.
+    std::string opGoalLazy(const std::vector<std::string> &t)
+    {
+        size_t i = 1;
+        unsigned readers = needN(t, i);
+        unsigned long samples = needN(t, i);
+        uint64_t seed = needN(t, i);
+        if (i != t.size() || readers < 1 || readers > 16)
+            throw vp::ParseError("goallazy");
+        auto space = std::make_shared<ob::RealVectorStateSpace>(2);
+        space->setBounds(0.0, 1.0);
+        auto si = std::make_shared<ob::SpaceInformation>(space);
+        si->setStateValidityChecker([](const ob::State *st) {
+            double x = st->as<ob::RealVectorStateSpace::StateType>()->values[0];
+            return x < 0.4 || x > 0.6;
+        });
+        si->setup();
+        const double minDist = 0.03;
+        // the sampler (called by the sampling thread only): points with y < 0.9
+        XorShift rng(seed);
+        std::vector<std::array<double, 2>> produced;   // written by the sampling thread, read after it was joined
+        std::atomic<unsigned long> calls{0}, trueCalls{0};
+        auto sampler = [&](const ob::GoalLazySamples *, ob::State *st) {
+            unsigned long n = calls.fetch_add(1, std::memory_order_relaxed);
+            if (n >= samples)
+                return false;
+            double x = rng.unit(), y = 0.9 * rng.unit();
+            st->as<ob::RealVectorStateSpace::StateType>()->values[0] = x;
+            st->as<ob::RealVectorStateSpace::StateType>()->values[1] = y;
+            produced.push_back({x, y});
+            trueCalls.fetch_add(1, std::memory_order_relaxed);
+            if (n % 16 == 0)
+                usleep(20);   // let the readers and the main thread in
+            return true;
+        };
+        auto goal = std::make_shared<ob::GoalLazySamples>(si, sampler, false, minDist);
+        // callback: every 8th new state adds one extra state (row y = 0.95, 0.02 apart, at most 40) through addState()
+        std::atomic<unsigned> news{0}, extras{0};
+        ob::GoalLazySamples *gp = goal.get();
+        goal->setNewStateCallback([&, gp](const ob::State *) {
+            unsigned k = news.fetch_add(1, std::memory_order_relaxed);
+            if (k % 8 == 7 && extras.load() < 40)
+            {
+                ob::ScopedState<> e(si);
+                e[0] = 0.1 + 0.02 * extras.fetch_add(1, std::memory_order_relaxed);
+                e[1] = 0.95;
+                gp->addState(e.get());
+            }
+        });
+        std::atomic<bool> done{false};
+        std::atomic<unsigned long> readerBad{0}, monotoneBad{0}, reads{0};
+        std::vector<std::thread> rd;
+        for (unsigned r = 0; r < readers; ++r)
+            rd.emplace_back([&] {
+                ob::ScopedState<> st(si);
+                std::size_t lastCount = 0;
+                unsigned lastAttempts = 0;
+                while (!done.load(std::memory_order_acquire))
+                {
+                    std::size_t c = goal->getStateCount();
+                    if (c < lastCount)
+                        ++monotoneBad;
+                    lastCount = c;
+                    unsigned a = goal->samplingAttemptsCount();
+                    if (a < lastAttempts)
+                        ++monotoneBad;
+                    lastAttempts = a;
+                    if (goal->hasStates())
+                    {
+                        goal->sampleGoal(st.get());
+                        double x = st[0], y = st[1];
+                        bool sampleRow = y < 0.9 && (x < 0.4 || x > 0.6) && x >= 0.0 && x <= 1.0;
+                        bool extraRow = y == 0.95 && x >= 0.1 - 1e-12 && x <= 0.9;
+                        if (!sampleRow && !extraRow)
+                            ++readerBad;
+                        if (!(goal->distanceGoal(st.get()) == 0.0))
+                            ++readerBad;   // a state of the goal is at distance 0 from the goal
+                        if (goal->maxSampleCount() < c)
+                            ++readerBad;
+                    }
+                    (void)goal->couldSample();
+                    (void)goal->isSampling();
+                    reads.fetch_add(1, std::memory_order_relaxed);
+                }
+            });
+        // phase 1: start, stop after about a third of the samples
+        goal->startSampling();
+        while (calls.load() < samples / 3)
+            sched_yield();
+        goal->stopSampling();
+        bool stopOk = !goal->isSampling();
+        std::size_t c1 = goal->getStateCount();
+        unsigned long calls1 = calls.load();
+        usleep(2000);
+        stopOk = stopOk && goal->getStateCount() == c1 && calls.load() == calls1;   // joined: nothing can be added any more
+        // phase 2: restart, run the sampler dry
+        goal->startSampling();
+        bool restartOk = true;
+        auto t0 = std::chrono::steady_clock::now();
+        while (calls.load() <= samples && std::chrono::steady_clock::now() - t0 < std::chrono::seconds(60))
+            sched_yield();
+        goal->stopSampling();
+        restartOk = calls.load() > samples && !goal->isSampling();
+        done = true;
+        for (auto &x : rd)
+            x.join();
+        // expected content, sequentially: valid samples in order, each accepted iff farther than minDist from everything
+        // accepted so far (the extras sit in their own row, >= 0.05 away from every sample and 0.02 > minDist? no: 0.02 <
+        // minDist does not matter, addState() does not test distances)
+        std::vector<std::array<double, 2>> acc;
+        for (auto &p : produced)
+        {
+            if (!(p[0] < 0.4 || p[0] > 0.6))
+                continue;
+            bool far = true;
+            for (auto &q : acc)
+                if (std::sqrt((p[0] - q[0]) * (p[0] - q[0]) + (p[1] - q[1]) * (p[1] - q[1])) <= minDist)
+                {
+                    far = false;
+                    break;
+                }
+            if (far)
+                acc.push_back(p);
+        }
+        std::size_t count = goal->getStateCount();
+        // every goal state is an accepted sample or an extra, each exactly once
+        unsigned long foreign = 0;
+        std::multiset<std::pair<double, double>> have;
+        for (std::size_t k = 0; k < count; ++k)
+        {
+            const auto *v = goal->getState(k)->as<ob::RealVectorStateSpace::StateType>()->values;
+            have.insert({v[0], v[1]});
+        }
+        std::multiset<std::pair<double, double>> want;
+        for (auto &p : acc)
+            want.insert({p[0], p[1]});
+        for (unsigned k = 0; k < extras.load(); ++k)
+            want.insert({0.1 + 0.02 * k, 0.95});
+        if (have != want)
+            foreign = 1;
+        unsigned attempts = goal->samplingAttemptsCount();
+        // phase 3: destruction while sampling
+        std::atomic<unsigned long> calls3{0};
+        auto endless = [&](const ob::GoalLazySamples *, ob::State *st) {
+            calls3.fetch_add(1, std::memory_order_relaxed);
+            st->as<ob::RealVectorStateSpace::StateType>()->values[0] = 0.1;
+            st->as<ob::RealVectorStateSpace::StateType>()->values[1] = 0.1;
+            usleep(50);
+            return true;
+        };
+        auto g3 = std::make_shared<ob::GoalLazySamples>(si, endless, true, minDist);
+        while (calls3.load() < 20)
+            sched_yield();
+        g3.reset();   // ~GoalLazySamples joins the thread
+        unsigned long after = calls3.load();
+        usleep(2000);
+        bool destroyOk = calls3.load() == after;
+        goal.reset();
+        return "goallazy readers=" + std::to_string(readers) + " produced=" + std::to_string(produced.size()) +
+               " expected=" + std::to_string(acc.size() + extras.load()) + " count=" + std::to_string(count) +
+               " extras=" + std::to_string(extras.load()) + " content_ok=" + std::to_string(foreign == 0 ? 1 : 0) +
+               " attempts=" + std::to_string(attempts) + " true_calls=" + std::to_string(trueCalls.load()) +
+               " stop_ok=" + std::to_string(stopOk) + " restart_ok=" + std::to_string(restartOk) +
+               " destroy_ok=" + std::to_string(destroyOk) + " reader_bad=" + std::to_string(readerBad.load()) +
+               " monotone_bad=" + std::to_string(monotoneBad.load()) + " reads=" + std::to_string(reads.load());
+    }
+
     // ---------------------------------------------------------------- directed: a handler that parks inside log()
     // The console promises that OutputHandler::log() is entered by one thread at a time ("it is likely the outputhandler
     // does some I/O, so we serialize it") - handlers carry no synchronisation of their own - and, as a consequence of the
@@ -1731,6 +1904,8 @@ int main()
                 out = opLogging(t);
             else if (t[0] == "logpark")
                 out = opLogPark(t);
+            else if (t[0] == "goallazy")
+                out = opGoalLazy(t);
             else if (t[0] == "terminate")
                 out = opTerminate(t);
             else if (t[0] == "planner")
